@@ -286,6 +286,11 @@ def run_case(model, scratch, kind, idx, seed):
     # ---- 1. dry run
     use_o = (seed >> 3) % 3 == 0
     ofile = os.path.join(s.base, b"dry_out.txt")
+    stale_o = use_o and (seed >> 5) % 2 == 0
+    if stale_o:
+        # FILE is left over from an earlier, LONGER dry run (another operation / a bigger report): nothing of it may survive
+        with open(ofile, "wb") as f:
+            f.write(b"".join(b"rm " + os.path.join(s.treedir, b"stale-%d") % k + b"\n" for k in range(400)))
     rc, dout, derr = s.run_op(dry_run=True, extra=(["-o", ofile] if use_o else []))
     out["count"] += 1
     if rc != 0:
@@ -308,7 +313,7 @@ def run_case(model, scratch, kind, idx, seed):
     ncmd_lines = len(script)
     out["nontrivial"] = ncmd_lines > 0
     out["bump"] += [("op", s.op), ("format", s.fmt), ("group_opts", " ".join(s.group_opts) or "default"),
-                    ("names", "hostile" if getattr(s, "hostile", False) else "plain"), ("dry_run_to", "file" if use_o else "stdout"),
+                    ("names", "hostile" if getattr(s, "hostile", False) else "plain"), ("dry_run_to", ("file(longer stale content)" if stale_o else "file") if use_o else "stdout"),
                     ("script_lines", min(ncmd_lines, 30) // 3 * 3), ("groups", min(len(groups), 40) // 4 * 4),
                     ("symlinks_reported", int(sym_in_report)), ("lock", "no-lock" if s.no_lock else "lock"),
                     ("priority", ",".join(s.sem["prio"]) or "-"), ("kind", kind if kind.startswith("random") else kind.rsplit("_", 1)[0])]
